@@ -3,3 +3,4 @@ import MambaVerif.Props.C14
 import MambaVerif.Props.C03
 import MambaVerif.Props.C10
 import MambaVerif.Props.C20
+import MambaVerif.Props.C01
